@@ -282,6 +282,12 @@ def strat_image(draw, tier):
         case["wcs"]["crpix_mode"] = "half"
         case["wcs"]["skew"] = 0.0
         case["wcs"]["ratio"] = 1.0
+        if draw(st.booleans()):
+            # put the pole exactly on a chosen pixel, including the first / last row or column
+            case["wcs"]["dec"] = draw(st.sampled_from([90.0, -90.0]))
+            case["wcs"]["crpix_mode"] = "inside"
+            case["wcs"]["crpix_u"] = draw(st.sampled_from([0.0, 1.0, 0.5, 0.013, 0.987]))
+            case["wcs"]["crpix_v"] = draw(st.sampled_from([0.0, 1.0, 0.5, 0.013, 0.987]))
     probes = []
     for _ in range(draw(st.integers(2, 6))):
         kind = draw(st.sampled_from(["pole", "pole", "interior", "ring"] if polar else ["latmax", "latmin", "lonmax", "lonmin", "latmax", "latmin", "lonmax", "lonmin", "ring", "interior", "pole"]))
